@@ -82,9 +82,111 @@ def _probe(env, d, reader, path, content, label):
     return None
 
 
+class _DyingWriter:
+    """Cache-file object of a writer that dies (disk full, kill) after `limit` bytes."""
+
+    def __init__(self, f, limit):
+        self._f = f
+        self._left = limit
+
+    def write(self, data):
+        data = bytes(data)
+        if len(data) <= self._left:
+            self._left -= len(data)
+            return self._f.write(data)
+        self._f.write(data[: self._left])
+        self._f.flush()
+        self._left = 0
+        import errno
+
+        raise OSError(errno.ENOSPC, "No space left on device (injected)")
+
+    def __enter__(self):
+        return self
+
+    def __exit__(self, *a):
+        self._f.close()
+        return False
+
+    def __getattr__(self, name):
+        return getattr(self._f, name)
+
+
+_die_after = None
+_die_patched = False
+
+
+def _patch_dying():
+    global _die_patched
+    if _die_patched:
+        return
+    from pygopherd.handlers.base import VFS_Real
+
+    orig = VFS_Real.open
+
+    def open_(self, selector, mode, errors=None):
+        f = orig(self, selector, mode, errors=errors) if errors is not None else orig(self, selector, mode)
+        if _die_after is not None and selector.endswith(CACHE) and any(c in mode for c in "wa+") and type(self) is VFS_Real:
+            return _DyingWriter(f, _die_after)
+        return f
+
+    VFS_Real.open = open_
+    _die_patched = True
+
+
+def _crash_writer(part, lo, step, reader):
+    """An OLD cache exists, the directory changes (a rename that keeps every length), the cache
+    expires, and the writer that refreshes it dies after k bytes — for every k.  Whatever is
+    left on disk, the next request must show the directory as it is now."""
+    global _die_after
+    _patch_dying()
+    w = rig.World({"w": {"alpha.txt": b"A\n", "bravo.txt": b"B\n", "sub": {"x": b"x"}}}, handlers="default", cachetime=100000, tag="c11w")
+    try:
+        cpath = os.path.join(w.root, "w", CACHE)
+        req = rig.request(reader, "/w")
+        w.serve(*req)
+        with open(cpath, "rb") as f:
+            old = f.read()
+        os.rename(os.path.join(w.root, "w", "bravo.txt"), os.path.join(w.root, "w", "delta.txt"))
+        w.reconfigure(handlers="default", cachetime=0)
+        fresh = _norm(w.serve(*req).out)
+        w.reconfigure(handlers="default", cachetime=100000)
+        n = len(old)
+        for k in range(lo, n + 40, step):
+            with open(cpath, "wb") as f:
+                f.write(old)
+            os.utime(cpath, (1, 1))  # long expired
+            _die_after = k
+            try:
+                r1 = w.serve(*req)
+            finally:
+                _die_after = None
+            r2 = w.serve(*req)
+            part.evaluations += 2
+            part.transitions += 2
+            part.state("crash-writer", reader, k)
+            bad = None
+            for which, r in (("the request whose cache write died", r1), ("the request after it", r2)):
+                if r.internal_error:
+                    bad = ("error", "%s: %s" % (which, r.describe_error()))
+                elif _norm(r.out) != fresh:
+                    bad = ("stale-or-partial", "%s (writer died after %d of ~%d bytes) got %r, the directory now lists as %r" % (which, k, n, _norm(r.out)[:160], fresh[:160]))
+                if bad:
+                    break
+            part.outcome("crash-writer", reader, bad[0] if bad else "ok", k >= n)
+            if bad:
+                part.violation("crash-writer|r=%s|died-after=%d|%s" % (reader, k, bad[0]), bad[1], {"kind": "crash-writer", "reader": reader, "k": k})
+        part.sample({"crash_writer": "old cache + same-length rename + expiry; writer dies after k bytes, k = %d, %d, ... %d" % (lo, lo + step, n + 39), "reader": reader}, limit=1)
+    finally:
+        w.destroy()
+
+
 def _shard(shard, seed, tier):
     part = core.Partial()
     kind = shard[0]
+    if kind == "crash-writer":
+        _crash_writer(part, shard[1], shard[2], shard[3])
+        return part
     env = _Env()
     try:
         if kind == "dir":
@@ -163,6 +265,11 @@ def replay(case):
             blob = env.make_cache(case["d"], case["writer"])
             fill = (b"\0" if case["fill"] == "zero-filled" else b"\xff") * len(blob)
             bad = _probe(env, case["d"], case["reader"], env.cache_path(case["d"]), fill, "replay")
+        elif case["kind"] == "crash-writer":
+            env.destroy()
+            p2 = core.Partial()
+            _crash_writer(p2, case["k"], 10 ** 9, case["reader"])
+            return (p2.violations[0][0], p2.violations[0][1]) if p2.violations else None
         elif case["kind"] == "sched":
             env.destroy()
             from . import c11_sched
@@ -187,13 +294,18 @@ def run(ck):
             shards.append(("dir", d, w, r, j, None, nsplit))
     for ext in (".dat", ".dir", ".bak", ""):
         shards.append(("zip", ext, "gopher"))
+    for j in range(8):
+        shards.append(("crash-writer", j, 8, "gopher"))
+    if ck.tier == "thorough":
+        for j in range(8):
+            shards.append(("crash-writer", j, 8, "http"))
     ck.pmap(_shard, shards)
     from . import c11_sched
 
     c11_sched.run(ck)
     ck.rule = (
         "every prefix length 0..size (and a zero-filled and an 0xff-filled file of full length) of the cache file written by the real server for %d (directory, writer protocol, reader protocol) combinations, "
-        "and of each file of the ZIP index cache; then writer||reader schedules (see counters). distinct = (directory, reader, verdict, is-complete-file)" % len(combos)
+        "and of each file of the ZIP index cache; a writer that dies after k bytes (every k) while refreshing an expired cache of a directory that changed; then writer||reader schedules (see counters). distinct = (directory, reader, verdict, is-complete-file)" % len(combos)
     )
     ck.bounds = {"combos": len(combos), "prefix_step": 1}
     ck.assumptions = ["cache lifetime is effectively infinite during the check, so every request after the first would be a cache hit",
